@@ -4,6 +4,7 @@ import (
 	"fmt"
 	"math"
 	"math/rand/v2"
+	"sync/atomic"
 
 	"github.com/wizenheimer/comet"
 
@@ -70,10 +71,13 @@ func cloneF32(v []float32) []float32 {
 		return nil
 	}
 	buf := make([]float32, len(v)+3)
-	buf[len(v)], buf[len(v)+1], buf[len(v)+2] = 1e30, -1e30, 12345.678
+	g := float32(cloneGarbage.Add(1)%1000) + 0.5 // different behind every copy: garbage in two operands must not cancel
+	buf[len(v)], buf[len(v)+1], buf[len(v)+2] = 1e6+g, -g*1e3, g
 	copy(buf, v)
 	return buf[:len(v)]
 }
+
+var cloneGarbage atomic.Int64
 
 func sameBits(a, b []float32) bool {
 	if len(a) != len(b) {
@@ -428,7 +432,7 @@ func runC18(r *ev.Run) {
 			roomy := func(v []float32) []float32 {
 				buf := make([]float32, len(v)+1+rng.IntN(9))
 				for j := range buf {
-					buf[j] = float32(7 + j)
+					buf[j] = float32(rng.NormFloat64() * 100)
 				}
 				copy(buf, v)
 				return buf[:len(v)]
